@@ -341,6 +341,25 @@ impl Collector {
 
 /// Where the result document goes; the watchdog writes `<path>.stuck` next to it.
 pub static OUT_PATH: std::sync::OnceLock<String> = std::sync::OnceLock::new();
+
+/// `<out>.inflight`: one 8-byte slot per worker holding (case index + 1) while the case runs. If the
+/// process is ended from inside lace (a signal, stack overflow, abort, a direct `process::exit`) the
+/// driver reads the slots and re-runs those cases alone to decide which one does it.
+static INFLIGHT: std::sync::OnceLock<Option<std::fs::File>> = std::sync::OnceLock::new();
+
+fn inflight_set(worker: usize, value: u64) {
+    if cfg!(miri) {
+        return;
+    }
+    let file = INFLIGHT.get_or_init(|| {
+        let path = OUT_PATH.get()?;
+        std::fs::OpenOptions::new().create(true).write(true).truncate(true).open(format!("{}.inflight", path)).ok()
+    });
+    if let Some(f) = file {
+        use std::os::unix::fs::FileExt;
+        let _ = f.write_at(&value.to_le_bytes(), worker as u64 * 8);
+    }
+}
 /// Wall-clock seconds after which a single case is *nominated* as non-terminating. The verdict
 /// is never taken from this: the driver re-runs the nominated case under a CPU-time limit.
 pub const STUCK_AFTER_S: u64 = 45;
@@ -428,7 +447,9 @@ where
                     let start = std::time::Instant::now();
                     active[w].1.store(t0.elapsed().as_millis() as u64, Ordering::Relaxed);
                     active[w].0.store(i + 1, Ordering::Relaxed);
+                    inflight_set(w, i + 1);
                     let out = if fresh { run_on_fresh_thread(f, i) } else { f(i) };
+                    inflight_set(w, 0);
                     active[w].0.store(0, Ordering::Relaxed);
                     let dt = start.elapsed().as_secs_f64();
                     let mut col = shared.lock().unwrap();
